@@ -203,6 +203,41 @@ def r5_2(ctx):
         ctx.bad("R5.2", fi.module, fi.qual, "copy -> COPYUID -> expunge", "MOVE no longer copies, reports COPYUID and only then expunges", fi.node.lineno)
 
 
+def r5_3b(ctx):
+    """UID EXPUNGE hands Mailbox.expunge() the UIDs it named; `None` means "no restriction" and must be passed exactly when
+    the command is *not* a UID command.  A UID set that names no existing message is the empty list (expunge nothing), never
+    None (expunge every \\Deleted message)."""
+    p = ctx.p
+    fi = p.func("client.Authenticated.do_expunge")
+    ctx.analysed(fi)
+    calls = [c for c in calls_in(fi.node) if call_name(c) == "expunge" and "mbox" in norm(call_recv(c) or ast.Name(""))]
+    ctx.require(calls, "do_expunge: call of mbox.expunge not found")
+    for c in calls:
+        a = kwarg(c, "uid_msg_set") or (c.args[0] if c.args else None)
+        if a is None:
+            ctx.bad("R5.3", fi.module, fi.qual, norm(c, 80), "EXPUNGE no longer passes a UID restriction: UID EXPUNGE removes every \\Deleted message", c.lineno)
+            continue
+        v = a
+        if isinstance(a, ast.Name):
+            defs = [s_.value for s_ in body_walk(fi.node) if isinstance(s_, ast.Assign) and norm(s_.targets[0]) == a.id]
+            v = defs[-1] if defs else a
+        okv = False
+        why = "not of the form `<list of UIDs> if cmd.uid_command else None`"
+        if isinstance(v, ast.IfExp):
+            t = v.test
+            plain = norm(t) == "cmd.uid_command"
+            none_else = isinstance(v.orelse, ast.Constant) and v.orelse.value is None
+            listy = isinstance(v.body, (ast.ListComp, ast.List)) or (isinstance(v.body, ast.Call) and call_name(v.body) in ("list", "sorted"))
+            if plain and none_else and listy:
+                okv = True
+            elif not plain:
+                why = f"the restriction is dropped (None) on `not ({norm(t, 60)})`, i.e. also for a UID EXPUNGE whose set names no existing message"
+        if okv:
+            ctx.ok("R5.3", where(fi), "UID EXPUNGE passes the list of named UIDs (possibly empty); None only for plain EXPUNGE")
+        else:
+            ctx.bad("R5.3", fi.module, fi.qual, f"uid_msg_set = {norm(v, 90)}", f"the UID restriction handed to Mailbox.expunge() is {why}: `UID EXPUNGE <uid that is already gone>` removes every \\Deleted message", getattr(v, "lineno", c.lineno))
+
+
 def r5_3(ctx):
     p = ctx.p
     fi = p.func("mbox.Mailbox.expunge")
@@ -467,6 +502,7 @@ def run(ctx):
     ctx.do(r5_1b)
     ctx.do(r5_2)
     ctx.do(r5_3)
+    ctx.do(r5_3b)
     ctx.do(r5_5)
     ctx.do(r5_6)
     ctx.do(r5_7)
